@@ -1,7 +1,7 @@
 (* C12 — Builtins are total and agree with simple reference models.
    This file contains ONLY the property theorems, each closed by `exact <lemma>` and followed by
    Print Assumptions. The models are in Builtins.v / Rope.v, the specs in BuiltinSpec.v. *)
-From Quiver Require Import BuiltinSpec BuiltinProofs RopeProofs BuiltinWf IntBitProofs BinaryProofs VectorProofs BinaryShiftProofs.
+From Quiver Require Import BuiltinSpec BuiltinProofs RopeProofs BuiltinWf IntBitProofs BinaryProofs VectorProofs BinaryShiftProofs BinaryBitsProofs BuiltinAll.
 
 Theorem C12_integer_add : forall a b, impl_integer_add (BTup [BInt a; BInt b]) = Val (BInt (a + b)).
 Proof. exact integer_add_correct. Qed.
@@ -224,6 +224,21 @@ Theorem C12_binary_shift : forall a, wf_bval a ->
 Proof. exact binary_shift_correct. Qed.
 Print Assumptions C12_binary_shift.
 
+Theorem C12_binary_get : forall a, wf_bval a ->
+  flatten_out (impl_binary_get a) = spec_binary_get (flatten a) /\ wf_out (impl_binary_get a).
+Proof. exact binary_get_correct. Qed.
+Print Assumptions C12_binary_get.
+
+Theorem C12_binary_set : forall a, wf_bval a ->
+  flatten_out (impl_binary_set a) = spec_binary_set (flatten a) /\ wf_out (impl_binary_set a).
+Proof. exact binary_set_correct. Qed.
+Print Assumptions C12_binary_set.
+
+Theorem C12_binary_append : forall a, wf_bval a ->
+  flatten_out (impl_binary_append a) = spec_binary_append (flatten a) /\ wf_out (impl_binary_append a).
+Proof. exact binary_append_correct. Qed.
+Print Assumptions C12_binary_append.
+
 (* ------------------------------------------------------------------ packed-vector kernels (same statement shape) *)
 
 Theorem C12_vector_add : forall a, wf_bval a ->
@@ -280,3 +295,32 @@ Theorem C12_vector_sum : forall a, wf_bval a ->
   flatten_out (impl_vector_sum a) = spec_vector_sum (flatten a) /\ wf_out (impl_vector_sum a).
 Proof. exact vector_sum_correct. Qed.
 Print Assumptions C12_vector_sum.
+
+(* ------------------------------------------------------------------ all binary_* / vector_* builtins at once.
+   BuiltinAll.rope_builtins lists the 28 (implementation model, reference spec) pairs. *)
+Theorem C12_rope_builtins_listed : map fst rope_builtins =
+  [ impl_binary_new; impl_binary_length; impl_binary_concat; impl_binary_repeat; impl_binary_and;
+    impl_binary_or; impl_binary_xor; impl_binary_not; impl_binary_shift; impl_binary_popcount;
+    impl_binary_get; impl_binary_set; impl_binary_slice; impl_binary_index; impl_binary_hash32;
+    impl_binary_hash64; impl_binary_append;
+    impl_vector_add; impl_vector_subtract; impl_vector_multiply; impl_vector_less_than; impl_vector_equal;
+    impl_vector_greater_than; impl_vector_dot; impl_vector_take; impl_vector_get; impl_vector_push;
+    impl_vector_sum ].
+Proof. reflexivity. Qed.
+Print Assumptions C12_rope_builtins_listed.
+
+(* results do not depend on how an argument binary was built (literal, concat, slice, repeat, zero-fill):
+   equal bytes in any two well-formed rope shapes give equal results up to bytes_of *)
+Theorem C12_builtins_shape_independent :
+  Forall (fun p : (bval -> outcome bval) * (fval -> outcome fval) =>
+            forall a1 a2, wf_bval a1 -> wf_bval a2 -> flatten a1 = flatten a2 ->
+                          flatten_out (fst p a1) = flatten_out (fst p a2)) rope_builtins.
+Proof. exact rope_builtins_shape_independent. Qed.
+Print Assumptions C12_builtins_shape_independent.
+
+(* never Panic, and the rope invariant is inductive: results are well-formed again *)
+Theorem C12_builtins_total_and_wf :
+  Forall (fun p : (bval -> outcome bval) * (fval -> outcome fval) =>
+            forall a, wf_bval a -> wf_out (fst p a)) rope_builtins.
+Proof. exact rope_builtins_total. Qed.
+Print Assumptions C12_builtins_total_and_wf.
